@@ -173,6 +173,41 @@ def slice_and_tuple_scenarios(ctx, out):
     n = 80 if ctx.tier != 'thorough' else 1500
     cnt = 0
     Point = E.EDataType('Point', tuple)
+    # the notifications of a slice assignment are compared with the Coq model (Model/Slice.v elist_setslice, extracted
+    # as run_slicenotif; theorems C05_slice_assignment_* in Props/C05.v): kind and payload of every notification
+    model = common.Model()
+    KCODE = {'REMOVE': 1, 'REMOVE_MANY': 2, 'ADD': 3, 'ADD_MANY': 4}
+    tie = {'compared': 0, 'empty_rhs': 0, 'refused': 0}
+
+    def model_slice(i, j, ys, before):
+        bt = lambda v: [0, 0] if v is None else [1, v]   # noqa: E731
+        mo = model.ask('slicenotif', bt(i) + bt(j) + [len(ys)] + list(ys) + [len(before)] + list(before))
+        if not mo or mo[0] != 0:
+            return ('refused', None, None)
+        nl = mo[1]
+        after = mo[2:2 + nl]
+        k = 3 + nl
+        ns = []
+        for _ in range(mo[2 + nl]):
+            kind, cntk = mo[k], mo[k + 1]
+            ns.append((kind, mo[k + 2:k + 2 + cntk]))
+            k += 2 + cntk
+        return ('ok', after, ns)
+
+    def impl_notifs(raw, tok):
+        res = []
+        for kind, old, new in raw:
+            if kind in ('REMOVE', 'ADD'):
+                v = old if kind == 'REMOVE' else new
+                if isinstance(v, list) and not v:
+                    res.append((5, []))                  # ADD whose payload is the empty list itself
+                else:
+                    res.append((KCODE[kind], [tok(v)]))
+            elif kind in ('REMOVE_MANY', 'ADD_MANY'):
+                res.append((KCODE[kind], [tok(x) for x in (old if kind == 'REMOVE_MANY' else new)]))
+            else:
+                res.append((9, [kind]))
+        return res
     for it in range(n):
         A = E.EClass('A')
         A.eStructuralFeatures.append(E.EAttribute('ints', E.EInt, upper=-1, unique=False))
@@ -188,9 +223,12 @@ def slice_and_tuple_scenarios(ctx, out):
         mirror = {'ints': [], 'pts': [], 'pt': None, 'refs': []}
         log = []
 
+        raw = []
+
         def cb(nf):
             f = nf.feature.name
             log.append((nf.kind.name, f, repr(nf.old), repr(nf.new)))
+            raw.append((nf.kind.name, nf.old, nf.new))
             if nf.kind in (Kind.SET, Kind.UNSET):
                 mirror[f] = nf.new
             elif nf.kind in (Kind.ADD, Kind.ADD_MANY):
@@ -214,8 +252,19 @@ def slice_and_tuple_scenarios(ctx, out):
                     i = rng.randrange(0, len(L) + 1)
                     j = rng.randrange(i, len(L) + 1)
                     vals = [rng.choice(pool) for _ in range(rng.randrange(1, 4))]
+                    ptok = {id(b): k2 for k2, b in enumerate(pool)}
+                    before = [ptok[id(b)] for b in L]
+                    if rng.random() < 0.3:                        # bounds as a caller may write them: negative, absent, past the end
+                        i, j = rng.choice([None, i, i - len(L) - 1 if len(L) else i]), rng.choice([None, j, j + 2])
+                    r0 = len(raw)
                     a.refs[i:j] = vals
-                    hist.append(['refs[%d:%d] =' % (i, j), [pname[id(b)] for b in vals]])
+                    hist.append(['refs[%r:%r] =' % (i, j), [pname[id(b)] for b in vals]])
+                    mo = model_slice(i, j, [ptok[id(b)] for b in vals], before)
+                    got = ('ok', [ptok[id(b)] for b in a.refs], impl_notifs(raw[r0:], lambda b: ptok[id(b)]))
+                    tie['compared'] += 1
+                    if mo != got:
+                        out.diff(f'slice-notification model vs impl after {hist[-1]} on {before}: model {mo} impl {got}',
+                                 {'scenario': 'slices', 'seed': ctx.seed, 'tier': ctx.tier, 'history': hist})
                 elif k == 'rappend':
                     b = rng.choice(pool)
                     a.refs.append(b)
@@ -228,8 +277,16 @@ def slice_and_tuple_scenarios(ctx, out):
                     if j == i and rng.random() < 0.5 and len(L):
                         j = min(len(L), i + 1)
                     vals = [rng.randrange(0, 5) for _ in range(m)]
+                    before = list(L)
+                    r0 = len(raw)
                     a.ints[i:j] = vals
                     hist.append(['ints[%d:%d] =' % (i, j), vals])
+                    mo = model_slice(i, j, vals, before)
+                    got = ('ok', list(a.ints), impl_notifs(raw[r0:], lambda v: v))
+                    tie['compared'] += 1
+                    if mo != got:
+                        out.diff(f'slice-notification model vs impl after {hist[-1]} on {before}: model {mo} impl {got}',
+                                 {'scenario': 'slices', 'seed': ctx.seed, 'tier': ctx.tier, 'history': hist})
                 elif k == 'append':
                     v = rng.randrange(0, 5)
                     a.ints.append(v)
@@ -294,7 +351,34 @@ def slice_and_tuple_scenarios(ctx, out):
         if bad:
             out.fail({'property': 'C05', 'clause': bad[0], 'scenario': 'slices'}, f'after {hist[-1] if hist else None}: {bad[1]}',
                      {'scenario': 'slices', 'seed': ctx.seed, 'tier': ctx.tier, 'history': hist})
+    # tie only (no mirror: `c[a:b] = []` is the known finding): empty right-hand sides and refused calls, every bound
+    for it in range(60 if ctx.tier != 'thorough' else 1500):
+        A = E.EClass('A')
+        A.eStructuralFeatures.append(E.EAttribute('ints', E.EInt, upper=-1, unique=False))
+        a = A()
+        before = [rng.randrange(0, 5) for _ in range(rng.randrange(0, 5))]
+        a.ints.extend(before)
+        raw = []
+        EObserver(a, notifyChanged=lambda nf: raw.append((nf.kind.name, nf.old, nf.new)))
+        nb = len(before)
+        i = rng.choice([None] + list(range(-nb - 2, nb + 3)))
+        j = rng.choice([None] + list(range(-nb - 2, nb + 3)))
+        refused = rng.random() < 0.4
+        vals = [rng.randrange(0, 5) for _ in range(rng.randrange(0, 3))] + ['x'] + [rng.randrange(0, 5) for _ in range(rng.randrange(0, 2))] \
+            if refused else []
+        try:
+            a.ints[i:j] = vals
+            got = ('ok', list(a.ints), impl_notifs(raw, lambda v: v))
+        except E.BadValueError:
+            got = ('refused', None, None) if (list(a.ints) == before and not raw) else ('refused-but-changed', list(a.ints), raw)
+        mo = model_slice(i, j, [(-77777 if v == 'x' else v) for v in vals], before)
+        tie['refused' if refused else 'empty_rhs'] += 1
+        if mo != got:
+            out.diff(f'slice-notification model vs impl for ints[{i}:{j}] = {vals} on {before}: model {mo} impl {got}',
+                     {'scenario': 'slices', 'seed': ctx.seed, 'tier': ctx.tier, 'history': [['ints[%r:%r] =' % (i, j), vals, before]]})
+    model.close()
     out.coverage['slice_and_tuple_calls_mirrored'] = cnt
+    out.coverage['slice_notifications_compared_with_model'] = tie
 
 
 _run_r = run
